@@ -294,25 +294,21 @@ def spacing_rule(ctx, facts):
         ctx.violation("SPACING", fid, "cannot-establish: Exp1 sample", hirq.loc(fn), "expected one `sample(Exp1)` site in sketch, found %d" % len(sites))
         return
     S = sites[0]
-    loops = [fl for fl in for_loops(fn) if t.contains(fl["body"], S)]
-    if not loops:
-        ctx.violation("SPACING", fid, "cannot-establish: draw loop", hirq.loc(S), "the Exp1 sample is not inside a `for` loop over a range")
+    from ..rulelib import counted_loop
+    encl = t.enclosing_loops(S)
+    if not encl:
+        ctx.violation("SPACING", fid, "cannot-establish: draw loop", hirq.loc(S), "the Exp1 sample is not inside a loop")
         return
-    fl = loops[-1]
-    rg = _range_of(fl["iter"])
-    if rg is None or fl["pat"].get("k") != "Bind":
-        ctx.violation("SPACING", fid, "cannot-establish: loop range", hirq.loc(fl["loop"]),
-                      "the draw loop does not iterate a range `lo..hi` / `lo..=hi` (optionally reversed) with a plain loop variable: `%s`" % nf.nf(fl["iter"])[:80])
+    cl = counted_loop(fn, encl[0])
+    if cl is None:
+        ctx.violation("SPACING", fid, "cannot-establish: loop range", hirq.loc(encl[0]),
+                      "the draw loop is not a counted loop (`for v in lo..hi | lo..=hi [.rev()]`, or `while c > 0 { ..; c -= 1 }` / `while c < n { ..; c += 1 }` "
+                      "with one unconditional top-level step): the iteration number of a draw cannot be established")
         return
-    lo, hi, incl, rev = rg
-    jname = fl["pat"]["name"]
+    fl = {"body": cl["body"], "loop": encl[0]}
+    jname = cl["var"]
     T = (ratfn.p_atom("#t"), ratfn.ONE)
-    rl, rh = ratfn.rat(lo, R), ratfn.rat(hi, R)
-    if not rev:
-        jt = (ratfn.p_add(ratfn.p_mul(rl[0], T[1]), ratfn.p_mul(T[0], rl[1])), ratfn.p_mul(rl[1], T[1]))          # lo + t
-    else:
-        last = (ratfn.p_add(rh[0], ratfn.p_mul(ratfn.p_const(1 - incl), rh[1]), -1), rh[1])                          # hi - 1 (or hi)
-        jt = (ratfn.p_add(last[0], ratfn.p_mul(T[0], last[1]), -1), last[1])                                          # last - t
+    jt = cl["value"](S)
     # the statement holding the sample
     st = S
     while True:
@@ -656,28 +652,27 @@ def _exit_setsketch(ctx, facts):
     loop = loops[0]
     cand = setsketch_candidate(fn)
     n = 0
+    from ..rulelib import counted_loop
+    from .. import ratfn
+    cl = counted_loop(fn, loop)
+    guard_atoms = set()
+    if cl is not None and cl.get("guard") is not None:
+        guard_atoms = {tuple(x) for x in nf.atoms(cl["guard"], True, res=R)} | {tuple(x) for x in nf.atoms(cl["guard"], True)}
     for (kind, node) in loop_exits(fn, loop):
-        if kind == "iterator-exhausted":
-            # every item makes up to m draws, one per register: the range must be the full 0..m
+        if kind == "iterator-exhausted" or (kind == "guard" and cl is not None):
+            # every item makes up to m draws, one per register: the loop must count m iterations (0..m, 1..=m reversed, a countdown from m, ..)
             fl = [f for f in for_loops(fn) if f["loop"] is loop]
-            rng = nf.nf(fl[0]["iter"], True, res=R) if fl else "?"
+            rng = nf.nf(fl[0]["iter"], True, res=R) if fl else (("counted loop on `%s`, %s iterations" % (cl["var"], ratfn.show(cl["count"]))) if cl else "?")
             n += 1
-            full = rng in ("std::ops::Range{start:0, end:self.m}", "std::ops::Range{start:0, end:self.k_vec.len()}")
-            if not full and fl and _range_of(fl[0]["iter"]) is not None:
-                # any range (inclusive, reversed) with m iterations: hi - lo (+1) == self.m as a polynomial
-                from .. import ratfn
-                lo_, hi_, incl_, _rev = _range_of(fl[0]["iter"])
-                a_, b_ = ratfn.rat(lo_, R), ratfn.rat(hi_, R)
-                cnt = (ratfn.p_add(ratfn.p_add(ratfn.p_mul(b_[0], a_[1]), ratfn.p_mul(a_[0], b_[1]), -1), ratfn.p_mul(ratfn.p_const(incl_), ratfn.p_mul(a_[1], b_[1]))), ratfn.p_mul(a_[1], b_[1]))
-                full = any(ratfn.equal(cnt, (ratfn.p_atom(x), ratfn.ONE)) for x in ("self.m", "self.k_vec.len()"))
+            full = cl is not None and any(ratfn.equal(cl["count"], (ratfn.p_atom(x), ratfn.ONE)) for x in ("self.m", "self.k_vec.len()"))
             if full:
                 ctx.ok("EXIT", fid, "draw loop ranges over 0..m (one draw per register)", hirq.loc(node))
             else:
                 ctx.violation("EXIT", fid, "draw range", hirq.loc(loop), "the draw loop of an item ranges over `%s`, not 0..self.m: some register is never offered a value of this item" % rng[:80])
             continue
         n += 1
-        conds = nf.all_conditions(t, node, stop=loop, res=R)
-        shown = nf.all_conditions(t, node, stop=loop)
+        conds = [c_ for c_ in nf.all_conditions(t, node, stop=loop, res=R) if tuple(c_) not in guard_atoms]
+        shown = [c_ for c_ in nf.all_conditions(t, node, stop=loop) if tuple(c_) not in guard_atoms]
         ok = False
         if kind == "break" and len(conds) == 1 and conds[0][0] == "cmp":
             _c, a, op, b = conds[0]
